@@ -145,6 +145,24 @@ func c07FamilyD() []c07version {
 	}
 }
 
+// families E (-autoname) and F (-dedup): clashing calls are added and removed
+// again; the run renames calls in the sources, derived.gen.go must still only
+// depend on the sources it was started on
+func c07FamilyE(n1, n2, n3, t1, t2, t3 string) []c07version {
+	types := "type A struct {\n\tX int\n\tS []string\n}\n\ntype B struct {\n\tM map[string]int\n}\n\ntype C struct {\n\tP *int\n\tL []B\n}\n\n"
+	call := func(fn, name, typ string) string {
+		return fmt.Sprintf("func %s(x, y %s) bool {\n\treturn %s(x, y)\n}\n\n", fn, typ, name)
+	}
+	one := func(body string) pkgFiles { return pkgFiles{"a.go": "package m\n\n" + types + body} }
+	return []c07version{
+		{"1-one-call", one(call("use1", n1, t1))},
+		{"2-clashing-call-added-in-the-same-file", one(call("use1", n1, t1) + call("use2", n2, t2))},
+		{"3-third-clashing-call-in-a-second-file", pkgFiles{"a.go": "package m\n\n" + types + call("use1", n1, t1) + call("use2", n2, t2), "b.go": "package m\n\n" + call("use3", n3, t3)}},
+		{"4-first-call-removed", pkgFiles{"a.go": "package m\n\n" + types + call("use2", n2, t2), "b.go": "package m\n\n" + call("use3", n3, t3)}},
+		{"5-no-derive-calls", one("func use1(x, y *A) bool {\n\treturn x == y\n}\n")},
+	}
+}
+
 func checkC07(tier string) {
 	rep := newReporter("C07", tier)
 	var mu sync.Mutex
@@ -153,13 +171,16 @@ func checkC07(tier string) {
 		versions  []c07version
 		everyByte func(i int) bool // versions whose every byte prefix is a node
 		allPairs  bool
+		flags     []string
 	}
 	famA, famB := c07FamilyA(), c07FamilyB()
 	fams := []famT{
-		{"C", c07FamilyC(), func(i int) bool { return true }, true},
-		{"A", famA, func(i int) bool { return tier == "thorough" || i == 0 || i == 6 }, tier == "thorough"},
-		{"B", famB, func(i int) bool { return tier == "thorough" || i == 0 }, tier == "thorough"},
-		{"D", c07FamilyD(), func(i int) bool { return tier == "thorough" || i == 0 }, tier == "thorough"},
+		{"C", c07FamilyC(), func(i int) bool { return true }, true, nil},
+		{"A", famA, func(i int) bool { return tier == "thorough" || i == 0 || i == 6 }, tier == "thorough", nil},
+		{"B", famB, func(i int) bool { return tier == "thorough" || i == 0 }, tier == "thorough", nil},
+		{"D", c07FamilyD(), func(i int) bool { return tier == "thorough" || i == 0 }, tier == "thorough", nil},
+		{"E", c07FamilyE("deriveEqual", "deriveEqual", "deriveEqual", "*A", "*B", "*C"), func(i int) bool { return tier == "thorough" }, true, []string{"-autoname"}},
+		{"F", c07FamilyE("deriveEqualA", "deriveEqualB", "deriveEqualC", "*A", "*A", "*A"), func(i int) bool { return tier == "thorough" }, true, []string{"-dedup"}},
 	}
 	totalNodes, totalEdges := 0, 0
 	outcomes := map[string]int{}
@@ -171,7 +192,7 @@ func checkC07(tier string) {
 			for rep3 := 0; rep3 < 3; rep3++ {
 				dir := filepath.Join(scratchDir, "c07", fmt.Sprintf("scratch-%s-%d-%d", fam.name, i, rep3))
 				writePkg(dir, v.files)
-				r := goderive(dir, ".")
+				r := goderive(dir, append(append([]string{}, fam.flags...), ".")...)
 				got := readFileOr(filepath.Join(dir, "derived.gen.go"), "")
 				if r.Exit != 0 {
 					rep.Violation("from-scratch-run-fails|"+v.name, fmt.Sprintf("version %s cannot be generated from scratch: %s", v.name, head(firstErrorLine(r.Stderr), 200)), map[string]interface{}{"engine": "e2", "files": v.files})
@@ -267,7 +288,7 @@ func checkC07(tier string) {
 			if nd.bytes != nil {
 				writeFile(filepath.Join(pdir, "derived.gen.go"), *nd.bytes)
 			}
-			r := goderive(dir, gargs...)
+			r := goderive(dir, append(append([]string{}, fam.flags...), gargs...)...)
 			gotB, err := os.ReadFile(filepath.Join(pdir, "derived.gen.go"))
 			got, present := string(gotB), err == nil
 			rel := "other-version"
@@ -347,7 +368,7 @@ func checkC07(tier string) {
 	if tier == "thorough" {
 		rep.Cov["bound"] = "every byte prefix of every output x every version of the same family (all pairs)"
 	} else {
-		rep.Cov["bound"] = "whole-file and absent nodes x every version (all pairs); every byte prefix of the outputs of A1, A7 and B1 x {same, previous, next version}; family C (two calls of one plugin, one removed): every byte prefix x all versions; family D (chains of 2, 4, 5 and 6 nested derive calls): whole-file and absent nodes x all pairs, every byte prefix of D1 x {same, next}"
+		rep.Cov["bound"] = "whole-file and absent nodes x every version (all pairs); every byte prefix of the outputs of A1, A7 and B1 x {same, previous, next version}; family C (two calls of one plugin, one removed): every byte prefix x all versions; family D (chains of 2, 4, 5 and 6 nested derive calls): whole-file and absent nodes x all pairs, every byte prefix of D1 x {same, next}; families E (-autoname: conflicting calls added / removed) and F (-dedup: duplicate names added / removed): whole-file and absent nodes x all pairs [every byte prefix]"
 	}
 	rep.Cov["exhaustive"] = true
 	rep.Assume = append(rep.Assume, "a crash is modelled as 'file holds the first k bytes' for every k; torn sector writes are not modelled")
